@@ -72,6 +72,7 @@ type Script struct {
 	Header  []string // H, K, G and the A lines of the foreign wallet
 	Ops     []Op
 	Wallets map[int]*WSpec
+	blocks  map[wire.Hash]*massutil.Block
 	Gen     *hist.H // id maps (script hashes, transactions, blocks) for rendering reports
 	Stats   GenStats
 }
